@@ -10,7 +10,10 @@ sensitivities of schema parsing on cyclic reference graphs (F02a, F02c) are attr
 graph guards of Model/Render.v; the parser itself is modelled for C02, not here.
 
 Streams:
-  render   document x {json, yaml block, yaml flow, yaml unquoted} + permutations; model = Render.emitted_by_tag
+  render   document x {json, yaml block, yaml flow, yaml unquoted} + reorderings (components.schemas, paths random and
+           reversed, properties, all, every mapping key-sorted, key order WITHIN path items / operations: `parameters`
+           last, reversed); documents include components.parameters with inline object / array-of-enum schemas shared by
+           operations of different paths, and path-level `parameters`; model = Render.emitted_by_tag
            of the parsed document (predicts which operations exist per tag client, in which order)
   keys     small documents with int/str response keys straight into load_ir_from_spec; yaml.safe_load of keys
   fields   object schemas with random (colliding) property names; model = Render.gen_fields
@@ -74,6 +77,27 @@ def permute_spec(spec: dict, rng, what: str) -> dict:
         if isinstance(node, list):
             return [perm_props(x) for x in node]
         return node
+    def reorder_items(doc: dict, how: str) -> dict:
+        """key order WITHIN path items and operations"""
+        def re_map(m: dict) -> dict:
+            items = list(m.items())
+            if how == "reversed":
+                items.reverse()
+            elif how == "params_last":
+                items = [kv for kv in items if kv[0] != "parameters"] + [kv for kv in items if kv[0] == "parameters"]
+            return dict(items)
+        for path in list(doc["paths"]):
+            item = doc["paths"][path]
+            if isinstance(item, dict):
+                doc["paths"][path] = re_map({k: (re_map(v) if isinstance(v, dict) and "responses" in v else v) for k, v in item.items()})
+        return doc
+    if what == "paths_reversed":
+        s["paths"] = dict(reversed(list(s["paths"].items())))
+        return s
+    if what == "keys_sorted":
+        return json.loads(json.dumps(s, sort_keys=True))
+    if what in ("item_params_last", "item_reversed"):
+        return reorder_items(s, what[5:])
     if what in ("schemas", "all") and "components" in s and "schemas" in s["components"]:
         s["components"]["schemas"] = shuffled(s["components"]["schemas"])
     if what in ("paths", "all"):
@@ -245,8 +269,9 @@ def run_render_doc(spec: dict, rng, n_perm: int) -> list[dict]:
     for name, (text, isy) in rv.items():
         loaded = yaml.safe_load(text) if isy else json.loads(text)
         variants.append((name, text, isy, loaded, "rendering"))
+    kinds = ["schemas", "paths", "properties", "all", "paths_reversed", "keys_sorted", "item_params_last", "item_reversed"]
     for i in range(n_perm):
-        what = ["schemas", "paths", "properties", "all"][i % 4]
+        what = kinds[i % len(kinds)]
         p = permute_spec(spec, rng, what)
         variants.append((f"perm_{what}_{i}", json.dumps(p), False, p, "permutation"))
     ref_snap = ref_man = None
@@ -489,25 +514,30 @@ def main(chk: Check, replay: dict | None = None) -> int:
 
     # ---------------- render
     specs = [c["input"]["spec"] for c in corpus if c["input"].get("kind") == "render"]
-    n_docs = 60 if chk.thorough else 10
+    n_docs = 40 if chk.thorough else 8
     tries = 0
     while len(specs) < len([c for c in corpus if c["input"].get("kind") == "render"]) + n_docs and tries < 200:
         tries += 1
-        s = gen_spec(rng, p_declared=1.0, cycles=False, collide=0.0, n_paths=(2, 4))
+        s = gen_spec(rng, p_declared=1.0, cycles=False, collide=0.0, n_paths=(2, 4), shared_params=0.5, path_level=0.5, sse=0.1)
         if collision_free(s):
             specs.append(s)
     render_cases: list[dict] = []
     for s in specs:
-        render_cases += run_render_doc(s, rng, 8 if chk.thorough else 6)
+        render_cases += run_render_doc(s, rng, 16 if chk.thorough else 8)
     usable = [c for c in render_cases if c["abs"]["usable"]]
     codes = chk.coq_eval(imports, "render_in * list (str * list str)", [c_render_case(c) for c in usable], "run_render",
                          tag="render") if chk.model_ok else None
     chk.decide(usable, codes, {1: "F07b", 2: "F02a", 3: "F02c"},
                "render: Render.emitted_by_tag(parse_doc d) = methods per endpoints module of the generated package")
     chk.decide([c for c in render_cases if not c["abs"]["usable"]], None, {}, "render (no model: tag/module names differ)")
-    dist["render"] = {"documents": len(specs), "generations": len(render_cases),
-                      "by_variant": {k: sum(1 for c in render_cases if c["input"]["variant"].split("_")[0] + "_" + (c["input"]["variant"].split("_") + [""])[1] == k)
-                                     for k in ("json_", "yaml_block", "yaml_flow", "yaml_unquoted", "perm_schemas", "perm_paths", "perm_properties", "perm_all")},
+    by_variant: dict[str, int] = {}
+    for c in render_cases:
+        v = re.sub(r"_\d+$", "", c["input"]["variant"])
+        by_variant[v] = by_variant.get(v, 0) + 1
+    dist["render"] = {"documents": len(specs),
+                      "with_shared_component_parameters": sum(1 for s_ in specs if (s_.get("components") or {}).get("parameters")),
+                      "with_path_level_parameters": sum(1 for s_ in specs if any(isinstance(i, dict) and "parameters" in i for i in s_["paths"].values())), "generations": len(render_cases),
+                      "by_variant": by_variant,
                       "oracle_failures": sum(1 for c in render_cases if c["oracle_fail"]),
                       "cyclic_documents": sum(1 for c in render_cases if not py_acyclic(c["abs"]["graph"]))}
 
